@@ -78,6 +78,8 @@ def map_program(cfg):
         l = f".map identifier={e['id']} bank_range={num(e['lo'], st)},{num(e['hi'], st)} addr_range={num(e['alo'], st)},{num(0xffff, st)} mask={num(e['mask'], st)}"
         if e["ram"]:
             l += " writable=1"
+        elif (e["lo"] + e["hi"] + i) % 2 == 0:
+            l += " writable=0"   # ROM said explicitly: the same as leaving the attribute out
         if e["mirror"]:
             l += f" mirror_bank_range={num(e['mirror'][0], st)},{num(e['mirror'][1], st)}"
         lines.append(l)
